@@ -53,11 +53,16 @@ def observe(o):
     return obs_numpy(o)
 
 OBJS = {}
+# arrays handed out earlier (the object the caller holds, a private copy of what it held when it was handed out): a returned
+# array belongs to the caller - what it holds must not change when the environment moves on, and what the caller writes into
+# it must not show up in arrays handed out later
+KEPT = []
 
 def run(req):
     import numpy as np
     if req.get("reset"):
         OBJS.clear()
+        del KEPT[:]
     objs = OBJS
     results = []
     for c in req["calls"]:
@@ -90,6 +95,16 @@ def run(req):
             else:
                 raise RuntimeError("driver: unknown call kind " + k)
             res = {"r": enc(val)}
+            for (held, was) in KEPT:
+                if not np.array_equal(held, was):
+                    res = {"e": "ReturnedArrayChangedLater", "msg": "an array returned by an earlier call no longer holds what it held: %s -> %s" % (was.tolist()[:9], held.tolist()[:9])}
+                    del KEPT[:]
+                    break
+            if isinstance(val, np.ndarray) and "e" not in res:
+                if val.flags.writeable and val.size > 0:
+                    val += 1  # the caller scribbles into its array
+                KEPT.append((val, val.copy()))
+                del KEPT[:-6]
         except BaseException as e:  # PanicException derives from BaseException
             res = {"e": type(e).__name__, "msg": str(e)[:200]}
         if c.get("obs") and c["obs"] in objs:
